@@ -444,6 +444,33 @@ func c08g2ListRecord(c *eng.Ctx) {
 func c08g2Caps(c *eng.Ctx) {
 	c.Clause("R5", "C08.7")
 	n := 0
+	// the state machine's index: fsm.LatestState().Index, read directly or returned (on every path) by
+	// a function literal / function of the package that is called for it
+	var isFsmIndex func(v ssa.Value, depth int) bool
+	isFsmIndex = func(v ssa.Value, depth int) bool {
+		if s := eng.ExprDeep(v); strings.Contains(s, "FSM).LatestState(") && strings.HasSuffix(s, "#0.Index") {
+			return true
+		}
+		cl, ok := v.(*ssa.Call)
+		if !ok || depth == 0 || cl.Call.IsInvoke() {
+			return false
+		}
+		g, _ := nfFuncValue(cl.Call.Value)
+		if g == nil || len(g.Blocks) == 0 || !eng.InPkg(eng.TopFunc(g), "raft") {
+			return false
+		}
+		n := 0
+		for _, r := range eng.Returns(g) {
+			if r.Block().Comment == "recover" {
+				continue
+			}
+			n++
+			if len(r.Results) != 1 || !isFsmIndex(r.Results[0], depth-1) {
+				return false
+			}
+		}
+		return n > 0
+	}
 	check := func(fn *ssa.Function, at ssa.Instruction, v ssa.Value, what string) {
 		n++
 		site := "cap{" + what + "}"
@@ -454,7 +481,7 @@ func c08g2Caps(c *eng.Ctx) {
 			if ok {
 				if b, isB := cl.Call.Value.(*ssa.Builtin); isB && b.Name() == "min" {
 					for _, a := range cl.Call.Args {
-						if s := eng.ExprDeep(a); strings.Contains(s, "FSM).LatestState(") && strings.HasSuffix(s, "#0.Index") {
+						if isFsmIndex(a, 1) {
 							capped = true
 						}
 					}
@@ -474,7 +501,8 @@ func c08g2Caps(c *eng.Ctx) {
 		if eng.FuncName(eng.TopFunc(s.Fn)) == "raft.(*FSM).ApplyBatch" {
 			continue // replicated bound (capped where it was shipped)
 		}
-		check(s.Fn, s.Call, s.Call.Common().Args[1], "argument of clearOldEntries")
+		args := nfCallOf(s.Call).Args
+		check(s.Fn, s.Call, args[len(args)-1], "argument of clearOldEntries")
 	}
 	if f := c.Fn("raft.(*RaftBackend).applyLog"); f != nil {
 		for _, st := range eng.Stores(f, `^command\.LowestActiveIndex$`) {
@@ -568,12 +596,12 @@ func cacheLruUnderKeyLock(c *eng.Ctx, clause string) {
 			c.Clause("R9", clause)
 			a := mu.Common().Args
 			op := mu.Common().StaticCallee().Name()
-			owner := strings.TrimSuffix(eng.ExprDeep(a[0]), ".lru")
+			owner := strings.TrimSuffix(c08g2Ident(a[0]), ".lru")
 			if op == "Purge" {
 				nPurge++
 				var all []ssa.Instruction
 				for _, lk := range eng.Calls(f, `^sync\.\(\*RWMutex\)\.Lock$`) {
-					if r := eng.ExprDeep(lk.Common().Args[0]); strings.HasPrefix(r, owner+".locks[") && strings.Contains(r, "rangeindex") {
+					if r := strings.ReplaceAll(eng.ExprDeep(lk.Common().Args[0]), "^", ""); strings.HasPrefix(r, owner+".locks[") && strings.Contains(r, "rangeindex") {
 						all = append(all, lk)
 					}
 				}
@@ -596,7 +624,7 @@ func cacheLruUnderKeyLock(c *eng.Ctx, clause string) {
 				}
 				continue
 			}
-			key := eng.ExprDeep(a[1])
+			key := c08g2Ident(a[1])
 			site := "LRU " + strings.ToLower(op) + " under the per-key lock of the same cache and key"
 			if op == "Remove" {
 				nRemove++
@@ -615,7 +643,7 @@ func cacheLruUnderKeyLock(c *eng.Ctx, clause string) {
 					wrong = "only the read lock is taken"
 					continue
 				}
-				t, k := eng.ExprDeep(lfk.Call.Args[0]), eng.ExprDeep(lfk.Call.Args[1])
+				t, k := c08g2Ident(lfk.Call.Args[0]), c08g2Ident(lfk.Call.Args[1])
 				if t != owner+".locks" {
 					wrong = "the lock comes from " + t
 					continue
@@ -658,4 +686,16 @@ func cacheLruUnderKeyLock(c *eng.Ctx, clause string) {
 	c.Floor(nil, "LRU removals of the physical cache", nRemove, 4)
 	c.Floor(nil, "LRU insertions of the physical cache", nAdd, 3)
 	c.Floor(nil, "LRU purges of the physical cache", nPurge, 1)
+}
+
+// c08g2Ident: what a value is, independent of how the function got hold of it:
+// a value read through a local alias or through a variable a function literal
+// captured is resolved to what was assigned (nfOrigins); the rendering carries
+// no capture marks, so `c.parent.(*T).lru` in Commit and in its literal agree.
+func c08g2Ident(v ssa.Value) string {
+	os := nfOrigins(v, nil)
+	if len(os) == 1 && os[0].Val != nil {
+		v = os[0].Val
+	}
+	return strings.ReplaceAll(eng.ExprDeep(v), "^", "")
 }
